@@ -318,6 +318,19 @@ def r2_elements_compared_boolean_aware(ctx):
             raise AnalysisError(f"anchor vanished: {cname}.__eq__")
         deleg = [r for r in ast.walk(eq) if isinstance(r, ast.Return) and r.value is not None and (("self._inner ==" in P.un(r.value)) or "AbstractSet.__eq__" in P.un(r.value) or "Mapping.__eq__" in P.un(r.value))]
         ok = not deleg
+        if ok:
+            # an element-wise walk has to use the boolean-aware comparison on what it walks over
+            walked = set()
+            for l in [n for n in ast.walk(eq) if isinstance(n, (ast.For, ast.comprehension))]:
+                walked |= {t.id for t in ast.walk(l.target) if isinstance(t, ast.Name)}
+                body = l.body if isinstance(l, ast.For) else []
+                walked |= {t.id for s in body for a in ast.walk(s) if isinstance(a, ast.Assign) for t in ast.walk(a.targets[0]) if isinstance(t, ast.Name)}
+            rawc = [c for c in ast.walk(eq) if isinstance(c, ast.Compare) and any(isinstance(o, (ast.Eq, ast.NotEq)) for o in c.ops) and (P.names_read(c) & walked)]
+            if rawc:
+                ctx.ob("C05.R2", f"{rel}::{cname}.__eq__::element comparison", rel, rawc[0].lineno, False,
+                       f"`{P.un(rawc[0])}` compares values with raw Python equality: a boolean equals a number inside an otherwise equal collection",
+                       witness="(= {:a true} {:a 1}) => true")
+                continue
         ctx.ob("C05.R2", f"{rel}::{cname}.__eq__::{P.un(deleg[0].value) if deleg else 'element-wise'}", rel, eq.lineno, ok,
                "" if ok else "values/members are compared by the generic container, i.e. with Python ==: a boolean equals a number inside an otherwise equal collection",
                witness="(= {:a true} {:a 1}) => true" if cname == "PersistentMap" else "(= #{true} #{1}) => true")
@@ -391,6 +404,11 @@ def r4_symmetric_predicate(ctx):
 
 
 SELFTEST = [
+    {"name": "map equality delegates to the Python mapping (the repaired defect)", "file": MAP, "expect": "C05.R2",
+     "old": "        sentinel = object()\n        for k, v in self._inner.items():\n            other_v = other.get(k, sentinel)\n            if other_v is sentinel or not _elem_equals(v, other_v):\n                return False\n        return True\n",
+     "new": "        return self._inner == other\n"},
+    {"name": "map equality walks the entries but compares values with ==", "file": MAP, "expect": "C05.R2",
+     "old": "            if other_v is sentinel or not _elem_equals(v, other_v):\n", "new": "            if other_v is sentinel or v != other_v:\n"},
     {"name": "symbol pickles its cached hash again (the repaired defect)", "file": "src/basilisp/lang/symbol.py", "expect": "C05.R6",
      "old": "    def __reduce__(self):\n", "new": "    def _rebuild_args(self):\n"},
     {"name": "tagged literal reduce hands the cached hash over", "file": "src/basilisp/lang/tagged.py", "expect": "C05.R6",
